@@ -476,27 +476,12 @@ def r4_table_needs_disjoint_keys(ctx):
 
 
 def r5_union_members_bound_guarded(ctx):
-    repo = ctx.repo
-    dm = A.dependent_meta(repo)
-    cg = dm.methods["codegen"]
-    ctx.touch(cg)
-    tpl = [str_value(a) for c in ast.walk(cg.node) if isinstance(c, ast.Call) and call_name(c) == "CodeGen" for a in c.args[:1]]
-    default_guarded = any(t and "isinstance" in t for t in tpl)
-    unions = [c for c in repo.all_classes() if c.name == "Union" and "codegen" in c.methods]
-    ctx.require(unions, "the union type lost its codegen")
-    for u in unions:
-        m = u.methods["codegen"]
-        ctx.touch(m)
-        text = src(m.node)
-        wraps = "bound" in text
-        ok = default_guarded or wraps
-        ctx.ob(
-            f"{m.key}:{'guarded' if ok else 'unguarded'}-member-predicates",
-            m.loc(),
-            "inside a union, a value-dependent member's predicate is evaluated only on values that are instances of that member's bound",
-            ok,
-            f"Union.codegen joins the members' checks with `or`, and a dependent member's check is `{tpl[0] if tpl else '?'}` with no bound test: only one arm's bound is guaranteed by dispatch, so another arm's user condition runs on a value outside its bound",
-        )
+    """Inside a union (and an intersection nested in one) a value-dependent member's condition only decides for
+    instances of that member's bound: decided by value (c11.r15_combinator_checks_by_value), which replaced the reading
+    of the generator's text after F15 / F34 / F35 were repaired."""
+    from .c11 import r15_combinator_checks_by_value
+
+    r15_combinator_checks_by_value(ctx)
 
 
 def r6_lower_rank_errors_told_apart(ctx):
